@@ -1,7 +1,7 @@
 (* C14P.v — proofs of the statements of Properties/C14.v (decoder of Model/Ser.v on hostile bytes). *)
 From Coq Require Import Lia ZifyBool.
 From Model Require Import Base Utf8 Ser SerCost SerHs.
-From Proofs Require Import Tac SerDecP.
+From Proofs Require Import Tac SerDecP SerSizeP.
 Open Scope Z_scope.
 
 Section C14.
@@ -219,3 +219,20 @@ Section Hs.
     - left. rewrite (eq_int_err _ _ _ He). unfold documented. auto 12.
   Qed.
 End Hs.
+
+(* ---------- allocation: the decoded value is at most (3 + D)/2 times the input in size *)
+Lemma decode_alloc_proof fc pk reg D fuel bs v rest :
+  reg_defsize_le reg D -> 0 <= D ->
+  decode fc pk reg fuel bs = SOk (v, rest) ->
+  2 * vsize v <= (3 + D) * (len bs - len rest) /\ len bs - len rest <= len bs.
+Proof.
+  intros HD HD0. unfold decode.
+  pose proof (decode_size_proof fc pk reg D HD HD0 fuel bs) as Hs.
+  pose proof (decode_bounded_proof fc pk reg fuel bs) as Hb.
+  destruct (dec_value fc pk reg fuel (st0 bs)) as [[v'|e] s]; [|discriminate].
+  intros H. inversion H; subst. destruct Hb as (Hv & _ & _ & _ & _ & Hc).
+  pose proof (len_nonneg (rem s)).
+  assert (Hm : (1 + D) * (2 * nval s) <= (1 + D) * (len bs - len (rem s))).
+  { apply Z.mul_le_mono_nonneg_l; lia. }
+  split; [|lia]. lia.
+Qed.
